@@ -134,6 +134,30 @@ func dumpRoot(r tuf.RootMetadata) string {
 	return fmt.Sprintf("{| rm_principals := %s; rm_root := %s; rm_targets := %s |}", coqNs(ps), role(rp, rt, e1, e2), role(tp, tt, e3, e4))
 }
 
+// dumpRootExtra renders, through the query interface, the parts of a root of trust that the Coq model
+// does not carry.
+func dumpRootExtra(r tuf.RootMetadata) string {
+	repos := func(l []tuf.OtherRepository) string {
+		out := []string{}
+		for _, o := range l {
+			out = append(out, fmt.Sprintf("%s@%s/%d", o.GetName(), o.GetLocation(), len(o.GetInitialRootPrincipals())))
+		}
+		sort.Strings(out)
+		return strings.Join(out, ",")
+	}
+	gs := []string{}
+	for _, g := range r.GetGlobalRules() {
+		gs = append(gs, g.GetName())
+	}
+	ds := []string{}
+	for _, d := range r.GetPropagationDirectives() {
+		ds = append(ds, d.GetName()+">"+d.GetUpstreamRepository()+">"+d.GetDownstreamPath())
+	}
+	sort.Strings(ds)
+	return fmt.Sprintf("controller=%v controllers=[%s] network=[%s] location=%q globals=%v directives=%v", r.IsController(), repos(r.GetControllerRepositories()), repos(r.GetNetworkRepositories()),
+		r.GetRepositoryLocation(), gs, ds)
+}
+
 // allocated reports whether the principals map of a v02 rule file has been allocated.
 func allocated(t tuf.TargetsMetadata) bool {
 	if v, ok := t.(*tufv02.TargetsMetadata); ok {
@@ -469,7 +493,45 @@ func c13Root(c *runCtx, r *rand.Rand) {
 		}
 	}()
 	nRef := 0
+	// edits of the parts of the root of trust the model does not carry (multi-repository data, location,
+	// global rules, propagation directives): applied to both objects between the modelled edits; they
+	// must survive serialisation and migration like everything else
+	extras := []string{}
+	extra := func() {
+		var ea, eb error
+		var h string
+		switch r.Intn(8) {
+		case 0:
+			h, ea, eb = "EnableController", m2.EnableController(), m1.EnableController()
+		case 1:
+			h, ea, eb = "DisableController", m2.DisableController(), m1.DisableController()
+		case 2:
+			n := fmt.Sprintf("ctl%d", r.Intn(3))
+			h, ea, eb = "AddControllerRepository "+n, m2.AddControllerRepository(n, "https://example.com/"+n, nil), m1.AddControllerRepository(n, "https://example.com/"+n, nil)
+		case 3:
+			n := fmt.Sprintf("net%d", r.Intn(3))
+			h, ea, eb = "AddNetworkRepository "+n, m2.AddNetworkRepository(n, "https://example.com/"+n, nil), m1.AddNetworkRepository(n, "https://example.com/"+n, nil)
+		case 4:
+			loc := fmt.Sprintf("https://example.com/self%d", r.Intn(3))
+			m2.SetRepositoryLocation(loc)
+			m1.SetRepositoryLocation(loc)
+			h = "SetRepositoryLocation " + loc
+		case 5:
+			g := tufv01.NewGlobalRuleThreshold(fmt.Sprintf("g%d", r.Intn(3)), []string{"git:refs/heads/*"}, 1+r.Intn(2))
+			h, ea, eb = "AddGlobalRule "+g.GetName(), m2.AddGlobalRule(g), m1.AddGlobalRule(g)
+		case 6:
+			d := tufv01.NewPropagationDirective(fmt.Sprintf("d%d", r.Intn(3)), "https://example.com/up", "refs/heads/main", "", "refs/heads/main", "up")
+			d2 := tufv02.NewPropagationDirective(d.GetName(), "https://example.com/up", "refs/heads/main", "", "refs/heads/main", "up")
+			h, ea, eb = "AddPropagationDirective "+d.GetName(), m2.AddPropagationDirective(d2), m1.AddPropagationDirective(d)
+		default:
+			return
+		}
+		extras = append(extras, fmt.Sprintf("%s => v02:%v v01:%v", h, ea, eb))
+	}
 	for k := 0; k < nOps; k++ {
+		if r.Intn(3) == 0 {
+			extra()
+		}
 		var op, h string
 		var e2, e1 error
 		switch x := r.Intn(10); {
@@ -511,7 +573,7 @@ func c13Root(c *runCtx, r *rand.Rand) {
 		rt = false
 	} else {
 		back := &tufv02.RootMetadata{}
-		if err := json.Unmarshal(b, back); err != nil || dumpRoot(back) != dumpRoot(m2) {
+		if err := json.Unmarshal(b, back); err != nil || dumpRoot(back) != dumpRoot(m2) || dumpRootExtra(back) != dumpRootExtra(m2) {
 			rt = false
 		}
 	}
@@ -519,18 +581,18 @@ func c13Root(c *runCtx, r *rand.Rand) {
 		rt = false
 	} else {
 		back := &tufv01.RootMetadata{}
-		if err := json.Unmarshal(b, back); err != nil || dumpRoot(back) != dumpRoot(m1) {
+		if err := json.Unmarshal(b, back); err != nil || dumpRoot(back) != dumpRoot(m1) || dumpRootExtra(back) != dumpRootExtra(m1) {
 			rt = false
 		}
 	}
 	mig := migrations.MigrateRootMetadataV01ToV02(m1)
 	_ = v1agree
-	mg := dumpRoot(mig) == dumpRoot(m1) && reflect.DeepEqual(len(mig.GetGlobalRules()), len(m1.GetGlobalRules()))
+	mg := dumpRoot(mig) == dumpRoot(m1) && reflect.DeepEqual(len(mig.GetGlobalRules()), len(m1.GetGlobalRules())) && dumpRootExtra(mig) == dumpRootExtra(m1)
 	term := fmt.Sprintf("(C13R %s %s %s %s)", coqList(ops), coqList(obs), coqBool(rt), coqBool(mg))
 	cls := "root"
 	if nRef > 0 {
 		cls = "root+refusals"
 	}
-	c.add(term, sideCase{Class: cls, Nontrivial: nOps >= 3, Key: keyOf(term), Human: map[string]interface{}{"ops": hops, "roundtrip_ok": rt, "migration_ok": mg}})
+	c.add(term, sideCase{Class: cls, Nontrivial: nOps >= 3, Key: keyOf(term), Human: map[string]interface{}{"ops": hops, "unmodelled_edits": extras, "roundtrip_ok": rt, "migration_ok": mg, "extra_v01": dumpRootExtra(m1), "extra_migrated": dumpRootExtra(mig)}})
 	_ = strings.Join
 }
